@@ -14,6 +14,7 @@ def dispatch (toks : List String) : String :=
     match toks with
     | "vz" :: rest => handleVz rest
     | "kz" :: rest => handleKz rest
+    | "kf" :: rest => handleKf rest
     | "q1" :: rest => handleQ1 rest
     | "qn" :: rest => handleQn rest
     | "f6" :: rest => handleF6 rest
